@@ -682,7 +682,7 @@ func (env *specEnv) call(n *ECall) Val {
 		case *types.Slice:
 			if n.Fun == "len" {
 				// a slice length is never negative (a fact of the Go type, also for headers read from the heap)
-				e.rangeFacts = append(e.rangeFacts, e.idxLe(e.idxConst(0), v.L[2]))
+				e.rangeFacts = append(e.rangeFacts, e.idxLe(e.idxConst(0), v.L[2]), e.idxLe(v.L[2], e.idxConst(1<<40)))
 				return Val{T: tInt, L: []string{v.L[2]}}
 			}
 			return Val{T: tInt, L: []string{v.L[3]}}
